@@ -24,7 +24,7 @@ class CheckC19(core.Check):
         "case = batch of sessions; in each, one genuine message carrying a >= 32-byte random payload is altered in its tag or in part of its "
         "body and read through the handshake / stateful / stateless path into a pattern-filled output buffer of size exact / message length "
         "(selects ring's in-place path) / in between / 65535; the read must fail, and the dumped buffer must not hold the payload at the "
-        "positions whose ciphertext was not altered (>= 16 consecutive matching bytes = leak); every cipher x {default, ring-first, default-first} "
+        "positions whose ciphertext was not altered (>= 16 consecutive matching bytes = leak) nor - handshake path - 16 bytes of a static public key the rejected message carried encrypted; every cipher x {default, ring-first, default-first} "
         "x path x alteration x buffer size; distinct key = that tuple + payload length; non-trivial = the read failed and the buffer was inspected"
     )
     assumptions = ["payloads are >= 32 pseudo-random bytes, so an accidental 16-byte match has probability <= 2^-128"]
@@ -93,11 +93,11 @@ class CheckC19(core.Check):
                     mut, altered = "~xor:%d:80" % body0, {0}
                 msglen = total - body0  # ciphertext+tag handed to the AEAD
                 buf = {"exact": plen, "msglen": msglen, "between": plen + rnd.randrange(1, 16), "big": 65535}[bufk]
-                lab = c.op(rop, reader, msg="$g%d%s" % (j, mut), buf=buf, dump=plen + 16, fill=rnd.choice([0, 0xA5, 0xFF]), **kw)
+                lab = c.op(rop, reader, msg="$g%d%s" % (j, mut), buf=buf, dump=max(plen + 16, 96), fill=rnd.choice([0, 0xA5, 0xFF]), **kw)
                 subs.append((lab, alt, bufk, plen, "secret%d.%d" % (seed, j), sorted(altered)))
                 j += 1
         c.meta["subs"] = subs
-        c.info = {"key": (ci, be, path), "pat": pat}
+        c.info = {"key": (ci, be, path), "pat": pat, "statics": [keys.pub_i.hex(), keys.pub_r.hex()]}
         return c
 
     def judge(self, case, events, death):
@@ -132,6 +132,21 @@ class CheckC19(core.Check):
                     best = max(best, run)
                 else:
                     run = 0
+            # the other decrypted plaintext of a handshake message: an encrypted static key (anywhere in the buffer)
+            leaked = None
+            for sp in case.info.get("statics", []):
+                spb = bytes.fromhex(sp)
+                for o in range(0, len(spb) - 15):
+                    if spb[o:o + 16] in buf:
+                        leaked = sp
+                        break
+            if leaked and path == "hs":
+                r.viol(
+                    "C19|leak-static|%s|%s|%s" % (ci, be, bufk),
+                    "%s backend %s, handshake read (%s), %s alteration, %s output buffer: after %s the caller's buffer holds the decrypted static public key carried by the rejected message"
+                    % (ci, be, case.info.get("pat"), alt, bufk, e.res),
+                )
+                continue
             r.stats["rejected_reads_inspected"] += 1
             r.stats["buffer_bytes_inspected"] += min(len(buf), plen)
             if best >= 16:
